@@ -250,6 +250,10 @@ func TestVerifC03Consistency(t *testing.T) {
 		rep.Inconcl(fmt.Sprintf("only %d of %d rounds could be checked", n, workers*rounds))
 	}
 
+	if n := rep.EventCount("rounds_refused_access_set_changed_nothing"); n < 10 && !rep.Violated() {
+		rep.Inconcl(fmt.Sprintf("only %d rounds with a refused access/set were checked", n))
+	}
+
 	// Second phase: requests overlapping a replacement of the settings.
 	c03FlipPhase(rep, nextID)
 }
@@ -285,6 +289,25 @@ func c03ConsistencyWorker(rep *verifkit.Report, rng *rand.Rand, wk, rounds int, 
 	}()
 
 	for r := 0; r < rounds; r++ {
+		if rng.Intn(7) == 0 {
+			// A malformed access/set: it must be refused and must change
+			// nothing, neither what is reported nor what is enforced nor the
+			// server's ability to be reconfigured and go on serving.
+			ok, keepGoing := c03RejectedSetRound(rep, rng, w, cur, nextID)
+			if !keepGoing {
+				return
+			}
+			if !ok {
+				rep.Event("servers_replaced_after_violation")
+				w.stop()
+				w = nil
+				if !start() {
+					return
+				}
+			}
+
+			continue
+		}
 		kind := []string{"set+reconfigure", "set+reconfigure", "set+reconfigure", "set+set+reconfigure", "set+set"}[rng.Intn(5)]
 		var sets []*c03Lists
 		sets = append(sets, fresh())
@@ -486,4 +509,105 @@ func c03ConsistencyWorker(rep *verifkit.Report, rng *rand.Rand, wk, rounds int, 
 			return
 		}
 	}
+}
+
+// c03Malformed are client-list entries that are neither an address, nor a CIDR,
+// nor a valid ClientID.
+var c03Malformed = []string{"192.0.2.0/33", "bad_id", "1.2.3.4.5", "2001:db8::/129", "-lead", "client id", "10.0.0.1/", "fe80::/64%eth0"}
+
+// c03RejectedSetRound posts lists with one malformed client entry.  ok is
+// false after a violation (the server is then replaced); keepGoing is false
+// when the worker cannot continue.
+func c03RejectedSetRound(rep *verifkit.Report, rng *rand.Rand, w *c03Wire, cur *c03Lists, nextID func() uint64) (ok, keepGoing bool) {
+	bad := c03GenPlainLists(rng, fmt.Sprintf("rej%d", rng.Intn(1_000_000)))
+	wellFormed := &c03Lists{Allow: append([]string{}, bad.Allow...), Deny: append([]string{}, bad.Deny...), Hosts: bad.Hosts}
+	entry := c03Malformed[rng.Intn(len(c03Malformed))]
+	where := "disallowed_clients"
+	if len(bad.Allow) > 0 && rng.Intn(2) == 0 {
+		bad.Allow = append(bad.Allow, entry)
+		where = "allowed_clients"
+	} else {
+		bad.Deny = append(bad.Deny, entry)
+	}
+	code, body := c03SetHTTP(w.S, bad)
+	witness := func(extra map[string]any) map[string]any {
+		m := map[string]any{"round_kind": "rejected-set, then Reconfigure(nil)", "lists_before_the_round": cur,
+			"posted_lists": bad, "malformed_entry": entry, "malformed_entry_in": where,
+			"access_set_status": code, "access_set_body": strings.TrimSpace(body)}
+		for k, v := range extra {
+			m[k] = v
+		}
+
+		return m
+	}
+	rep.Eval(true, "rejected|"+cur.canon()+"|"+bad.canon())
+	rep.Class("rounds_checked")
+	rep.Class("round:rejected-set+reconfigure")
+	if code == http.StatusOK {
+		// Nothing the statement forbids, but then the monitor's idea of a
+		// malformed entry is wrong.
+		rep.Inconcl("access/set accepted an entry that is neither an address, a CIDR nor a ClientID: " + entry)
+
+		return false, true
+	}
+	rep.Event("malformed_access_set_refused_with_" + fmt.Sprint(code))
+
+	check := func(stage string) bool {
+		reported, err := c03GetReported(w.S)
+		if err != nil {
+			rep.Inconcl("access/list not readable: " + err.Error())
+
+			return false
+		}
+		if !c03SameLists(reported, cur) {
+			rep.Violate("consistency:refused-access-set-changed-reported-lists:"+stage,
+				"access/set answered "+fmt.Sprint(code)+", yet access/list no longer reports the lists that were in effect before",
+				witness(map[string]any{"reported_" + stage: reported}))
+
+			return false
+		}
+		clients, names := c03ProbeSet([]*c03Lists{cur, wellFormed})
+		badProbes, n, err := c03Enforced(w.S, cur, clients, names, nextID)
+		if err != nil {
+			rep.Inconcl("probe set unusable: " + err.Error())
+
+			return false
+		}
+		rep.EventN("enforcement_probes", n)
+		if len(badProbes) > 0 {
+			if len(badProbes) > 5 {
+				badProbes = badProbes[:5]
+			}
+			rep.Violate("consistency:refused-access-set-changed-enforcement:"+stage,
+				"access/set answered "+fmt.Sprint(code)+", yet the server no longer enforces the lists that were in effect before",
+				witness(map[string]any{"disagreeing_probes_first_5": badProbes}))
+
+			return false
+		}
+
+		return true
+	}
+	if !check("after-the-refusal") {
+		return false, true
+	}
+	// The settings in effect must still be usable: every later
+	// reconfiguration of the DNS server rebuilds the access manager.
+	if err := w.S.Reconfigure(nil); err != nil {
+		if strings.Contains(err.Error(), "address already in use") {
+			rep.Event("reconfigure_errors")
+
+			return false, true
+		}
+		rep.Violate("consistency:reconfigure-fails-after-refused-access-set",
+			"after a refused access/set the DNS server can no longer be reconfigured and stays stopped, so that no client is served: "+err.Error(),
+			witness(nil))
+
+		return false, true
+	}
+	if !check("after-reconfigure") {
+		return false, true
+	}
+	rep.Event("rounds_refused_access_set_changed_nothing")
+
+	return true, true
 }
